@@ -228,6 +228,7 @@ type upReq struct {
 	Out      *Outcome
 	Sent     http.Header // the end-to-end headers of the answer
 	ch       chan *Outcome
+	WantTimeoutMs int // the location's configured proxy timeout (0 none)
 	Deadline int64 // ms, 0 = none
 }
 
@@ -272,8 +273,10 @@ type world struct {
 	goids     map[int64]int // goroutine id -> client id
 	evictions []evictEv
 	evChecked int
+	upsChecked int
 	resident  [2]map[string]bool // C11: keys each cache should hold in memory
 	cacheSize int
+	proxyTimeoutMs int
 	fullSeen  bool // some shard was filled to its limit
 	stores    [2]*memStore
 	cacheName [2]string
@@ -362,6 +365,7 @@ func (w *world) roundTrip(req *http.Request) (*http.Response, error) {
 	if dl, ok := req.Context().Deadline(); ok {
 		u.Deadline = dl.Sub(w.t0).Milliseconds()
 	}
+	u.WantTimeoutMs = w.proxyTimeoutMs
 	w.ups = append(w.ups, u)
 	if cid >= 0 && cid < len(w.clients) {
 		w.clients[cid].Ups = append(w.clients[cid].Ups, u.Serial)
@@ -863,6 +867,7 @@ func runScenario(t *testing.T, sc Scenario, m *model) (tr *trace) {
 			}
 		}
 		applyCfg(sc.Cfg, tag)
+		w.proxyTimeoutMs = sc.Cfg.ProxyTimeoutMs
 		w.cacheSize = sc.Cfg.CacheSize
 		if w.cacheSize <= 0 {
 			w.cacheSize = 1000
@@ -991,7 +996,20 @@ func (w *world) checkResidency(i int, op Op, m *model) {
 	w.mu.Lock()
 	evs := append([]evictEv{}, w.evictions[w.evChecked:]...)
 	w.evChecked = len(w.evictions)
+	newUps := append([]*upReq{}, w.ups[w.upsChecked:]...)
+	w.upsChecked = len(w.ups)
 	w.mu.Unlock()
+	// C02 (outcome "proxy timeout"): every upstream exchange of a location with a proxy timeout
+	// carries that deadline, counted from the moment the exchange starts
+	for _, u := range newUps {
+		if u.WantTimeoutMs <= 0 {
+			continue
+		}
+		want := u.ArriveMs + int64(u.WantTimeoutMs)
+		if u.Deadline == 0 || u.Deadline < want-5 || u.Deadline > want+5 {
+			m.viol("C02", "proxy-deadline", "op %d: upstream exchange #%d started at %d ms under a proxy timeout of %d ms but its deadline is %d ms (0 = none)", i, u.Serial, u.ArriveMs, u.WantTimeoutMs, u.Deadline)
+		}
+	}
 	for _, ev := range evs {
 		if w.resident[ev.Cache] == nil || !w.resident[ev.Cache][ev.Key] {
 			m.viol("C11", "removed-key-not-resident", "op %d (%s): cache %d reported the removal of key %q, which was not resident (resident: %d keys)", i, op.K, ev.Cache, ev.Key, len(w.resident[ev.Cache]))
